@@ -285,26 +285,47 @@ func (svc *service) stop() {
 	svc.wmu.Unlock()
 }
 
+// ensurePacketID makes sure that a message has its packet identifier before it is
+// registered in an ack queue: identifiers that are not set explicitly are assigned
+// by Encode.
+func ensurePacketID(msg message.Message) error {
+	if msg.PacketID() != 0 {
+		return nil
+	}
+
+	_, err := msg.Encode(make([]byte, msg.Len()))
+	return err
+}
+
 func (svc *service) publish(msg *message.PublishMessage, onComplete OnCompleteFunc) error {
+	// Register the request before it is written: its acknowledgement can arrive, and
+	// be processed, before writeMessage has returned.
+	if msg.QoS() != message.QosAtMostOnce {
+		if err := ensurePacketID(msg); err != nil {
+			return fmt.Errorf("(%s) Error sending %s message: %v", svc.cid(), msg.Name(), err)
+		}
+	}
+
+	switch msg.QoS() {
+	case message.QosAtLeastOnce:
+		if err := svc.sess.Pub1ack.Wait(msg, onComplete); err != nil {
+			return err
+		}
+
+	case message.QosExactlyOnce:
+		if err := svc.sess.Pub2out.Wait(msg, onComplete); err != nil {
+			return err
+		}
+	}
+
 	_, err := svc.writeMessage(msg)
 	if err != nil {
 		return fmt.Errorf("(%s) Error sending %s message: %v", svc.cid(), msg.Name(), err)
 	}
 	verifYield("publish.after-write", svc.id)
 
-	switch msg.QoS() {
-	case message.QosAtMostOnce:
-		if onComplete != nil {
-			return onComplete(msg, nil, nil)
-		}
-
-		return nil
-
-	case message.QosAtLeastOnce:
-		return svc.sess.Pub1ack.Wait(msg, onComplete)
-
-	case message.QosExactlyOnce:
-		return svc.sess.Pub2out.Wait(msg, onComplete)
+	if msg.QoS() == message.QosAtMostOnce && onComplete != nil {
+		return onComplete(msg, nil, nil)
 	}
 
 	return nil
@@ -314,12 +335,6 @@ func (svc *service) subscribe(msg *message.SubscribeMessage, onComplete OnComple
 	if onPublish == nil {
 		return fmt.Errorf("onPublish function is nil. No need to subscribe")
 	}
-
-	_, err := svc.writeMessage(msg)
-	if err != nil {
-		return fmt.Errorf("(%s) Error sending %s message: %v", svc.cid(), msg.Name(), err)
-	}
-	verifYield("subscribe.after-write", svc.id)
 
 	var onc OnCompleteFunc = func(msg, ack message.Message, err error) error {
 		onComplete := onComplete
@@ -388,16 +403,26 @@ func (svc *service) subscribe(msg *message.SubscribeMessage, onComplete OnComple
 		return err2
 	}
 
-	return svc.sess.Suback.Wait(msg, onc)
-}
+	// Register the request before it is written: the SUBACK can be processed before
+	// writeMessage has returned.
+	if err := ensurePacketID(msg); err != nil {
+		return fmt.Errorf("(%s) Error sending %s message: %v", svc.cid(), msg.Name(), err)
+	}
 
-func (svc *service) unsubscribe(msg *message.UnsubscribeMessage, onComplete OnCompleteFunc) error {
+	if err := svc.sess.Suback.Wait(msg, onc); err != nil {
+		return err
+	}
+
 	_, err := svc.writeMessage(msg)
 	if err != nil {
 		return fmt.Errorf("(%s) Error sending %s message: %v", svc.cid(), msg.Name(), err)
 	}
-	verifYield("unsubscribe.after-write", svc.id)
+	verifYield("subscribe.after-write", svc.id)
 
+	return nil
+}
+
+func (svc *service) unsubscribe(msg *message.UnsubscribeMessage, onComplete OnCompleteFunc) error {
 	var onc OnCompleteFunc = func(msg, ack message.Message, err error) error {
 		onComplete := onComplete
 
@@ -451,11 +476,33 @@ func (svc *service) unsubscribe(msg *message.UnsubscribeMessage, onComplete OnCo
 		return err2
 	}
 
-	return svc.sess.Unsuback.Wait(msg, onc)
+	// Register the request before it is written: the UNSUBACK can be processed before
+	// writeMessage has returned.
+	if err := ensurePacketID(msg); err != nil {
+		return fmt.Errorf("(%s) Error sending %s message: %v", svc.cid(), msg.Name(), err)
+	}
+
+	if err := svc.sess.Unsuback.Wait(msg, onc); err != nil {
+		return err
+	}
+
+	_, err := svc.writeMessage(msg)
+	if err != nil {
+		return fmt.Errorf("(%s) Error sending %s message: %v", svc.cid(), msg.Name(), err)
+	}
+	verifYield("unsubscribe.after-write", svc.id)
+
+	return nil
 }
 
 func (svc *service) ping(onComplete OnCompleteFunc) error {
 	msg := message.NewPingreqMessage()
+
+	// Register the request before it is written: the PINGRESP can be processed before
+	// writeMessage has returned.
+	if err := svc.sess.Pingack.Wait(msg, onComplete); err != nil {
+		return err
+	}
 
 	_, err := svc.writeMessage(msg)
 	if err != nil {
@@ -463,7 +510,7 @@ func (svc *service) ping(onComplete OnCompleteFunc) error {
 	}
 	verifYield("ping.after-write", svc.id)
 
-	return svc.sess.Pingack.Wait(msg, onComplete)
+	return nil
 }
 
 func (svc *service) isDone() bool {
